@@ -10,3 +10,29 @@ func reJSON(v any, out any) error {
 	}
 	return json.Unmarshal(b, out)
 }
+
+// Boundary alphabets for wide fields: 0, all ones, alternating patterns, every single bit.
+var ts33Alpha = func() []uint64 {
+	a := []uint64{0, 1<<33 - 1, 0x155555555, 0x0AAAAAAAA}
+	for k := 0; k < 33; k++ {
+		a = append(a, 1<<uint(k))
+	}
+	return a
+}()
+
+var ext9Alpha = func() []uint64 {
+	a := []uint64{0, 511, 0x155}
+	for k := 0; k < 9; k++ {
+		a = append(a, 1<<uint(k))
+	}
+	return a
+}()
+
+func bitsAlpha(n int) []uint64 {
+	a := []uint64{0, 1<<uint(n) - 1, (1<<uint(n) - 1) / 3}
+	for k := 0; k < n; k++ {
+		a = append(a, 1<<uint(k))
+	}
+	return a
+}
+
